@@ -123,6 +123,13 @@ def announceR {V E : Type} [DecidableEq E] (o : Oracle V E) (e : Entry V E) (now
 def announce {V E : Type} [DecidableEq E] (o : Oracle V E) (e : Entry V E) (now : Int) (ev : Ev V E) : Out V E :=
   announceR o e now (resolve o ev)
 
+/-- line 584: `if pobj.export: self.updateCallback(self, pobj)` — the funnel of a parameter that is not exported
+stores like any other but never tells the dispatcher -/
+def announceX {V E : Type} [DecidableEq E] (exported : Bool) (o : Oracle V E) (e : Entry V E) (now : Int) (r : VE V E) :
+    Out V E :=
+  let out := announceR o e now r
+  if exported then out else ⟨out.entry, none⟩
+
 /-! ### the time stamp argument -/
 
 /-- the `timestamp` argument of `announceUpdate` -/
